@@ -124,6 +124,20 @@ def suite_eval(ctx, case):
         ctx.pred('eval', case, bool(np.all(val == (1.0 if name == 'SingleSite' else 0.0))) and val.shape == k.shape, name + ' is not the constant', key='C11:constant')
     elif name == 'DiscreteKoyama':
         make = lambda: O.DiscreteKoyama(sigma=p['sigma'], l=p['l'], length=N, lp=p['lp'])
+        # constructor decision (ValueError iff l <= sigma/2 or lp < lp_min) and which branch computes the bending energy
+        try:
+            o0 = make(); ctor = 'true'
+            lpmin = o0.lp_min
+        except ValueError:
+            ctor = 'false'; lpmin = None
+        except Exception as e:
+            ctor = 'raised:' + type(e).__name__; lpmin = None
+        mc = drv.ask('koyama.ctor %s %s %s' % (f2h(p['sigma']), f2h(p['l']), f2h(p['lp']))).split()
+        edge = lpmin is not None and abs(p['lp'] - lpmin) <= 1e-12 * lpmin
+        if not edge:
+            ctx.corr('eval', case, mc[0], ctor, what='DiscreteKoyama constructor accepts / ValueError')
+        want = (p['l'] > p['sigma'] / 2.0) and (p['lp'] >= 4.0 * p['l'] ** 3 / (4.0 * p['l'] ** 2 - p['sigma'] ** 2) * (1 - 1e-12))
+        ctx.pred('eval', case, (ctor == 'true') == want or edge, 'DiscreteKoyama(sigma=%r, l=%r, lp=%r): constructor outcome %s' % (p['sigma'], p['l'], p['lp'], ctor), key='C11:koyama-reject')
         if case.get('invalid'):
             try:
                 make(); r = 'accepted'
@@ -141,6 +155,15 @@ def suite_eval(ctx, case):
             C = sqrt(0.5 * (5 - 3 * r4 / (r2 * r2))); B.append(sqrt(C * r2)); A.append(r2 * (1 - C) / 6)
             w.append(np.array(o.koyama_kernel_fourier(k=k, n=n), dtype=LD))
         ctx.corr('eval', case, drv.ask('om koyama %d | %s | %s | %s' % (N, fl(B), fl(A), fl(k))), fl(val), rtol=1e-11, scale=float(N), what='DiscreteKoyama.calculate')
+        # the kernel parameters themselves (kernel_base and C, B, A^2) from (l, cos1, cos2)
+        ns = list(range(1, N))[:12]
+        mb = drv.ask('koyama.base %s %s %s %s' % (f2h(o.l), f2h(o.cos1), f2h(o.cos2), ' '.join(map(str, ns))))
+        impl_b = []
+        for n in ns:
+            r2, r4 = o.kernel_base(n); C = sqrt(0.5 * (5 - 3 * r4 / (r2 * r2)))
+            impl_b += [r2, r4, C, sqrt(C * r2), r2 * (1 - C) / 6]
+        sc = float(max(abs(v) for v in impl_b))
+        ctx.corr('eval', case, mb, fl(impl_b), rtol=1e-6, atols=[1e-9 * sc] * len(impl_b), what='DiscreteKoyama kernel_base / kernel parameters')
         judge(ctx, case, name, N, val, pair_sum_from_w(N, np.array(w)))
         lo = val[k * max(B) * N < 1e-3]; hi = val[k * min(B) > 200 * N]
         ctx.pred('eval', case, bool(np.all(np.abs(lo - N) < 1e-4 * N)) and bool(np.all(np.abs(hi - 1) < 0.02)),
